@@ -337,6 +337,16 @@ func (db *DB) startAsyncWritesRoutine(s *Schema) {
 func (db *DB) safeAsyncState(s *Schema) (n int, async *Async) {
 	db.RLock()
 	defer db.RUnlock()
+
+	// the routine of a schema which is not the one of its collection
+	// anymore (Drop) has nothing left to do
+	db.sl.Lock()
+	cur := db.schemas[stype(s.object)]
+	db.sl.Unlock()
+	if cur != s {
+		return
+	}
+
 	if s.asyncWritesEnabled() {
 		// only the settings: routineStarted is written, with the read lock
 		// held, by whoever starts the routine of a freshly enabled schema
@@ -941,6 +951,15 @@ func (db *DB) Count(of Object) (n int, err error) {
 func (db *DB) Drop() (err error) {
 	db.Lock()
 	defer db.Unlock()
+
+	// nothing of the collections survives in memory either: cached and
+	// pending objects, and the schemas the flushing routines commit, would
+	// come back to disk with the next flush
+	db.sl.Lock()
+	db.schemas = make(map[string]*Schema)
+	db.sl.Unlock()
+	db.cache = newObjectStore()
+	db.asyncw = newObjectStore()
 
 	return os.RemoveAll(db.root)
 }
